@@ -162,6 +162,34 @@ func runC12(c *Ctx) {
 	}
 	c12FailedConcurrentWrites(c)
 	c12SinkFails(c, dir)
+	c12NotRegular(c)
+}
+
+// (f) files that are not known to be regular - a character device, permissions without any type bits, no permissions attribute at
+// all in the STAT reply - served by a peer that hands out fewer bytes per READ than asked for (legal for such files): WriteTo and
+// Read deliver every byte, in order, and the offset advances by exactly the bytes transferred (model: the sequential path; a
+// concurrent fixed-stride path would leave holes).
+func c12NotRegular(c *Ctx) {
+	reps := 36
+	if c.Thorough() {
+		reps = 600
+	}
+	for i := 0; i < reps; i++ {
+		p := []int{4, 8, 16}[i%3]
+		api := []string{"writeto", "writeto", "read"}[i%3]
+		// (Read on its concurrent path needs packets no larger than the server's payload - C01's side condition; WriteTo picks the
+		// sequential path for such files by itself, Read is run with concurrent reads off)
+		x := &xcase{api: api, p: p, conc: 2 + i%2, cr: api == "writeto", cw: false, fst: i%2 == 0, flen: 5*p + 3, n: 5*p + 3, off: []int{0, 1, p}[(i/3)%3],
+			maxtx: []int{p/2 + 1, p - 1, 3}[(i/9)%3], src: "opaque", backend: []string{"peer", "peerperm"}[i%2], regular: false, modeKind: i % 3}
+		r, n := emitX(c, x)
+		if r == nil {
+			continue
+		}
+		c.NT(n)
+		c.Stat("not_regular_short_reads")
+		ok, why := oracleExact(x, r)
+		c.Oracle(n, ok, why)
+	}
 }
 
 // (e) "advance it by the bytes transferred" when a concurrent Write is refused in several places at once: Write of 7 chunks at
